@@ -9,6 +9,7 @@ assumed to do to metadata; the end-to-end half of the correspondence checks that
 import ConfModel.Lemmas.Echo
 import ConfModel.Lemmas.EchoLoad
 import ConfModel.Spec.EchoExplicit
+import ConfModel.Spec.EchoExpand
 namespace ConfModel.Props.C02
 open ConfModel.Echo
 
@@ -768,5 +769,58 @@ theorem expected_error_verbatim (tc : TC) (ex : Err) (h : (expected tc).err = so
 -- a message of every byte class goes through verbatim
 example : ((expected { exErrDet with udef := some ⟨[⟨"H", ["1"]⟩], [], .error ⟨9, some "\t%\n 100%\x7f\x00é☃", []⟩⟩ }).err.map (·.msg))
     = some (some "\t%\n 100%\x7f\x00é☃") := by decide
+
+/-! ## C02 ∘ C19: the fits / misfit abstraction of `expandRequestData` is C19's arithmetic
+
+`dirOf` maps a directive of C19's model to the three values C02's load model distinguishes. -/
+section ExpandCompose
+open ConfModel ConfModel.EchoLoad
+
+/-- the `any`-clause of `expandCheck` is clean exactly when C19's loop over the messages succeeds
+(messages that all carry a `request_data` field) -/
+theorem expandMsgs_iff_no_misfit (limit : Nat) (ds : List Expand.Directive) :
+    ∀ ms : List EchoLoad.Msg, ms.length = ds.length → (∀ m ∈ ms, m.hasData = true) →
+    (((ds.map (dirOf limit)).zip ms).any (fun dm => dm.1 == .misfit || (dm.1 == .fits && !dm.2.hasData)) = false ↔
+      (Expand.expandMsgs limit ds).isSome = true) := by
+  induction ds with
+  | nil => intro ms _ _; simp [Expand.expandMsgs]
+  | cons d ds ih =>
+    intro ms hl hd
+    cases ms with
+    | nil => simp at hl
+    | cons m ms =>
+      have hm : m.hasData = true := hd m (by simp)
+      have ih' := ih ms (by simpa using hl) (fun x hx => hd x (by simp [hx]))
+      simp only [List.map_cons, List.zip_cons_cons, List.any_cons, Bool.or_eq_false_iff]
+      unfold Expand.expandMsgs
+      cases hoff : d.off with
+      | none =>
+        simp only [dirOf, hoff, Option.isSome_map]
+        rw [← ih']; simp
+      | some off =>
+        simp only [dirOf, hoff]
+        cases hres : Expand.expand limit d.r d.l0 off <;>
+          simp only [Expand.Out.isOk, if_true, if_false, Bool.false_eq_true, Option.isSome_map] <;>
+          first
+            | (rw [← ih']; simp [hm])
+            | simp
+
+/-- `EchoLoad.expandCheck` (C02) accepts a case exactly when `Expand.expandCase` (C19) pads every
+message: the abstraction to fits / misfit loses nothing the load verdict depends on -/
+theorem expandCheck_iff_expandCase (limit : Nat) (c : EchoLoad.Case) (ds : List Expand.Directive)
+    (hx : c.expand = ds.map (dirOf limit)) (hl : c.msgs.length = ds.length)
+    (hd : ∀ m ∈ c.msgs, m.hasData = true) :
+    EchoLoad.expandCheck c = none ↔ (Expand.expandCase limit ⟨ds.length, ds⟩).isSome = true := by
+  have hlen : ¬ c.expand.length > c.msgs.length := by rw [hx, List.length_map, hl]; exact Nat.lt_irrefl _
+  have hnot : (⟨ds.length, ds⟩ : Expand.SuiteCase).tooMany = false := by simp [Expand.SuiteCase.tooMany]
+  unfold EchoLoad.expandCheck Expand.expandCase
+  rw [if_neg hlen, hnot]
+  simp only [Bool.false_eq_true, if_false]
+  rw [← expandMsgs_iff_no_misfit limit ds c.msgs hl hd, hx]
+  cases h : ((ds.map (dirOf limit)).zip c.msgs).any (fun dm => dm.1 == .misfit || (dm.1 == .fits && !dm.2.hasData)) <;> simp
+
+-- non-vacuity: a message with 10 other bytes and no data padded to limit+5 fits; to limit-300000 it does not
+example : dirOf 204800 ⟨10, 0, some 5⟩ = .fits ∧ dirOf 204800 ⟨10, 0, some (-300000)⟩ = .misfit ∧ dirOf 204800 ⟨10, 0, none⟩ = .absent := by decide
+end ExpandCompose
 
 end ConfModel.Props.C02
